@@ -24,7 +24,8 @@ META = {
     "c33_same_decoded, c33_dispatch_sorted_stable are proved for every schema and every trigger/field history; the "
     "models are tied to the code by comparing, per cycle and per whole log, the records of the real capture process, "
     "of GeneratedEvLogSampler (packed / per-site) fed with the recorded signals of the real VerilogDebugWrapper, the "
-    "saved file text, load, EventLogReader, EventLogWriter, the decoded events and the dispatch sequence; a second "
+    "saved file text, load, EventLogReader, EventLogWriter, the decoded events and the dispatch sequence (for a shuffled "
+    "list and for run(EventLogReader) over a file that is not in cycle order); a second "
     "stream calls the real GeneratedEvLogSampler.sample directly on arbitrary reader values (also where the packed "
     "vector disagrees with the triggers: model/implementation agreement only)",
     "level_note": "trusted: Lean kernel (axioms propext, Classical.choice, Quot.sound); Python's json and dataclasses_json "
@@ -800,7 +801,7 @@ def gen_cases(ctx: Check) -> list[Case]:
     for spec in directed_specs():
         for style in ("dense", "mixed"):
             cases.append(mk_case(spec, gen_trace(rng, spec, 24, style), "directed"))
-    nspecs = ctx.pick(50, 1500)
+    nspecs = ctx.pick(40, 1500)
     for k in range(nspecs):
         spec = gen_spec(rng, small=(k % 5 == 0))
         for style in (("dense", "mixed", "sparse") if ctx.thorough else (rng.choice(["dense", "mixed"]), "sparse")):
@@ -908,7 +909,7 @@ def monitor_smp(case: Case, out: list[str]):
 def gen_smp_cases(ctx: Check) -> list[Case]:
     rng = ctx.rng("smp")
     cases = []
-    for _ in range(ctx.pick(40, 2000)):
+    for _ in range(ctx.pick(25, 2000)):
         ops = []
         for _ in range(12):
             n = rng.choice([0, 1, 2, 3, 5, 9, 17, 33, 65])
@@ -940,9 +941,10 @@ def load_corpus() -> list[Case]:
 def run(ctx: Check):
     ctx.rule = (
         "cases = (generated design: 1-6 emission sites with random event types (int/bool/enum/other dynamic fields, "
-        "int/str/bool/enum statics), field signals of widths 1-70 signed/unsigned/enum-shaped or constants, `when` absent/1-bit/"
+        "int/str/bool/enum statics incl. plain Enums with str-valued / mixed / int member values), field signals of widths 1-70 signed/unsigned/enum-shaped or constants, `when` absent/1-bit/"
         "multi-bit, emit inside nested If/Elif/Else, transaction bodies, method bodies, or top_emit; a trace of condition/"
-        "request/when/field values; a consumer handler table and a record order); non-trivial = a cycle with >= 2 records, "
+        "request/when/field values; a consumer handler table and a record order; the consumer is also run on the EventLogReader object of a file "
+        "written with the later half of the cycles first); non-trivial = a cycle with >= 2 records, "
         "a cycle where a site with non-zero `when` is silenced by its context, and a non-empty dispatch sequence"
     )
     ctx.assumptions.append(
